@@ -5,7 +5,9 @@ not, with or without defaults; unary and stream; with and without an injected ``
 whose implementation logs every invocation.  Requests are raw Arrow IPC streams: valid ones (framed by the real client
 path, which merges defaults) and perturbations of them (rename / reorder / add / drop / retype incl. compatible widenings /
 nullability flips / nulls in every position / unknown enum members / undecodable values / row counts), sent to the four
-dispatch sites: pipe unary, pipe stream (``serve_one``), HTTP unary, HTTP stream ``/init``.
+dispatch sites: pipe unary, pipe stream (``serve_one``), HTTP unary, HTTP stream ``/init``.  On the pipe every request is
+also sent through the shared-memory side channel: a zero-row pointer batch (showing the declared schema, or the batch's
+own) on the pipe, the real single-row batch in the segment — validation must look at the batch the kwargs come from.
 
 The oracle and the model both look at the **bytes that were sent** (the request is re-parsed with pyarrow), never at the
 generator's intent.
@@ -44,7 +46,8 @@ TRUSTED = [
     "pyarrow: IPC framing, DataType.__eq__ (mirrored by the canonical type descriptor and compared on every run), as_py()",
     "Python dict()/frozenset() and ArrowSerializableDataclass deserialisation: their outcome on a value is an input of the model",
     "Falcon routing / falcon.testing; the version gate itself is C09's model (only pass/refuse is used here)",
-    "metadata checks of _read_request (method / request_version keys), external-location and shm resolution are not modelled",
+    "metadata checks of _read_request (method / request_version keys) and the mechanics of pointer resolution (allocator, "
+    "region framing, fetch) are not modelled: a pointer request is its pointer schema + the batch it resolves to",
 ]
 RULE = (
     "signatures: hand-written corpus + random (0-5 params over 11 python types, optional / defaulted / keyword-only, "
@@ -53,11 +56,15 @@ RULE = (
     "drop, retype table per type incl. widenings / dictionary / view / run-end encodings and values without a Python "
     "counterpart or failing IPC validation, nullability flip, field metadata, null per position, enum/dataclass/utf8 value "
     "corruption, rows 0/2/3, URL/IPC name mismatch, version mismatch) plus random pairs; x 2 sites per method kind "
-    "(all four sites: pipe unary, pipe stream, HTTP unary, HTTP /init); a case is distinct by "
+    "(all four sites: pipe unary, pipe stream, HTTP unary, HTTP /init); every pipe request additionally routed through the "
+    "shared-memory side channel (ShmPipeTransport) as a zero-row pointer batch showing the declared schema / the batch's own "
+    "schema while the region holds the perturbed batch; a case is distinct by "
     "(signature, site, request bytes) and non-trivial when the signature has at least one parameter or the method raises"
 )
 PARTIAL = [
-    "shared-memory / external-location routed request batches and the metadata checks of _read_request are outside the model",
+    "requests routed through an external location are modelled (pointer -> resolved batch) but not generated: the fetch refuses "
+    "a resolved batch whose schema differs from the pointer's, so only the shared-memory route can make the two differ; "
+    "invalid pointers (bad offset/length, undecodable region) and the metadata checks of _read_request are outside the model",
 ]
 MANIFEST = {
     "level": "proof",
@@ -419,7 +426,9 @@ def decl_json(m: dict[str, Any], info: Any) -> list[dict[str, Any]]:
 
 def rq_json(ctx: Any, parsed: dict[str, Any]) -> dict[str, Any]:
     return {"cols": [{"name": s2j(c["name"]), "ty": s2j(sg.type_canon(c["type"])), "nullable": c["nullable"], "val": val_json(ctx, c)}
-                     for c in parsed["cols"]], "rows": parsed["rows"], "ipcValid": parsed["valid"]}
+                     for c in parsed["cols"]], "rows": parsed["rows"], "ipcValid": parsed["valid"],
+            "pointer": None if parsed.get("pointer") is None else
+            [{"name": s2j(c["name"]), "ty": s2j(sg.type_canon(c["type"])), "nullable": c["nullable"], "val": None} for c in parsed["pointer"]]}
 
 
 # ------------------------------------------------------------------------------------------ running the real code
@@ -479,11 +488,82 @@ def classify(err: dict[str, Any] | None, invoked: bool) -> dict[str, Any] | None
     return {"r": "deser"}
 
 
-def observe_pipe(svc: Service, method: str, req: bytes) -> dict[str, Any]:
+_SEG: list[Any] = []  # the shared-memory segment of this run (created on first use, unlinked by `close_segment`)
+
+
+def segment() -> Any:
+    from vgi_rpc.shm import ShmSegment
+
+    if not _SEG:
+        _SEG.append(ShmSegment.create(1 << 20))
+    return _SEG[0]
+
+
+def close_segment() -> None:
+    import contextlib
+
+    while _SEG:
+        seg = _SEG.pop()
+        with contextlib.suppress(Exception):
+            seg.close()
+        with contextlib.suppress(Exception):
+            seg.unlink()
+
+
+def has_dict(schema: pa.Schema) -> bool:
+    def walk(t: pa.DataType) -> bool:
+        if pa.types.is_dictionary(t):
+            return True
+        return any(walk(t.field(i).type) for i in range(t.num_fields))
+
+    return any(walk(f.type) for f in schema)
+
+
+def shm_request(seg: Any, real: bytes, pointer_schema: pa.Schema, md: dict[bytes, bytes]) -> bytes | None:
+    """Route a request through the shared-memory side channel as a C++-style client does: the single-row batch goes into
+    the segment, a zero-row *pointer* batch with `pointer_schema` and the dispatch metadata goes on the pipe.
+    `real` is the complete IPC stream of the batch the pointer resolves to.  None = cannot be framed that way."""
+    from vgi_rpc.shm import make_shm_pointer_batch
+
+    seg.reset()
+    if has_dict(pointer_schema):
+        # the reader decodes the region under the *pointer's* schema (dictionary framing): only an honest pointer works
+        rb = pa.ipc.open_stream(io.BytesIO(real)).read_next_batch()
+        if not rb.schema.equals(pointer_schema):
+            return None
+        placed = seg.allocate_and_write(rb)
+        if placed is None:
+            return None
+        off, n = placed
+    else:
+        off = seg._allocator.allocate(len(real))
+        if off is None:
+            return None
+        n = len(real)
+        seg._shm.buf[off:off + n] = real
+    pointer, pmd = make_shm_pointer_batch(pointer_schema, off, n)
+    buf = io.BytesIO()
+    with pa.ipc.new_stream(buf, pointer_schema) as w:
+        w.write_batch(pointer, custom_metadata=pa.KeyValueMetadata({**md, **dict(pmd.items())}))
+    return buf.getvalue()
+
+
+def observe_pipe(svc: Service, method: str, req: bytes, seg: Any = None) -> dict[str, Any]:
     m = svc.methods.get(method)
     sg.INVOCATIONS.clear()
     data = req + (sg.empty_tick_stream() if (m is not None and m["kind"] == "stream") else b"")
-    out, exc = rpcutil.serve_one_bytes(svc.server, data)
+    if seg is None:
+        out, exc = rpcutil.serve_one_bytes(svc.server, data)
+    else:
+        from vgi_rpc.rpc import PipeTransport, ShmPipeTransport
+
+        w = io.BytesIO()
+        exc = None
+        try:
+            svc.server.serve_one(ShmPipeTransport(PipeTransport(io.BytesIO(data), w), seg))
+        except BaseException as e:  # noqa: BLE001
+            exc = e
+        out = w.getvalue()
     inv = list(sg.INVOCATIONS)
     err = None
     unreadable = None
@@ -540,6 +620,23 @@ def check_case(ctx: Any, svc: Service, case: dict[str, Any]) -> None:
     m = svc.methods[method]
     info = svc.server._methods[method]
     parsed = parse_request(req)
+    routed = case.get("shm")
+    seg = None
+    if routed is not None:
+        # `req_hex` is the IPC stream of the batch the request *resolves to*; what travels on the pipe is a zero-row pointer
+        # batch with the schema below (its own validity is what the ValidatedReader sees; the resolved batch is not re-validated)
+        pschema = pa.ipc.read_schema(pa.py_buffer(bytes.fromhex(routed["pointer_schema_hex"])))
+        md = {sg.METHOD_KEY: parsed["method"].encode(), sg.REQUEST_VERSION_KEY: b"1"}
+        if parsed["version"] is not None:
+            md[sg.PROTOCOL_VERSION_KEY] = parsed["version"]
+        seg = segment()
+        wire_req = shm_request(seg, req, pschema, md)
+        if wire_req is None:
+            ctx.tag("pert:unroutable")
+            return
+        parsed["valid"] = True
+        parsed["pointer"] = [{"name": f.name, "type": f.type, "nullable": f.nullable, "value": None, "exc": None} for f in pschema]
+        req = wire_req
     site = site_of(transport, m["kind"])
     name_matches = parsed["method"] == method
     if transport == "pipe" and not name_matches:
@@ -559,7 +656,9 @@ def check_case(ctx: Any, svc: Service, case: dict[str, Any]) -> None:
         tags.append("gate:refuse")
     if not name_matches:
         tags.append("name:mismatch")
-    obs = observe_pipe(svc, method, req) if transport == "pipe" else observe_http(svc, method, m["kind"], req)
+    if routed is not None:
+        tags.append("route:shm-pointer=" + routed["pointer"])
+    obs = observe_pipe(svc, method, req, seg) if transport == "pipe" else observe_http(svc, method, m["kind"], req)
     invoked = len(obs["inv"]) > 0
     tags.append("impl:invoked" if invoked else "impl:refused")
     ctx.case(case, nontrivial=bool(m["params"]) or raises, tags=tags)
@@ -663,238 +762,32 @@ def flush_model(ctx: Any) -> None:
             ctx.mismatch(case, model_view, impl_view, f"serve at {site}: model vs implementation")
 
 
-# ------------------------------------------------------------------------------------------ running the real code
-
-
-class Service:
-    def __init__(self, methods: list[dict[str, Any]], version: str | None) -> None:
-        import falcon.testing
-
-        from vgi_rpc.http import make_wsgi_app
-
-        self.methods = {m["name"]: m for m in methods}
-        self.version = version
-        self.server = sg.make_server(methods, version)
-        self.client = falcon.testing.TestClient(make_wsgi_app(self.server, token_key=b"k" * 32))
-
-
-_MSG = [
-    (re.compile(r"Invalid request batch: "), "invalidBatch"),
-    (re.compile(r"Expected 1 row in request batch"), "rowCount"),
-    (re.compile(r"Request parameter ('.*?'|\".*?\") of Arrow type .* has no Python value", re.S), "noPythonValue"),
-    (re.compile(r"Method name mismatch"), "nameMismatch"),
-    (re.compile(r"\(\) got unexpected keyword argument\(s\): (.*)\Z", re.S), "unexpected"),
-    (re.compile(r"\(\) missing required argument\(s\): (.*)\Z", re.S), "missing"),
-    (re.compile(r"\(\) parameter schema expected (\d+) fields, got (\d+)"), "fieldCount"),
-    (re.compile(r"\(\) parameter schema field (\d+) expected name "), "fieldName"),
-    (re.compile(r"\(\) parameter ('.*?'|\".*?\") expected Arrow type ", re.S), "fieldType"),
-    (re.compile(r"\(\) parameter ('.*?'|\".*?\") expected nullable=", re.S), "fieldNullable"),
-    (re.compile(r"\(\) parameter '(.*)' is not optional but got None\Z", re.S), "nullNotOptional"),
-]
-
-
-def classify(err: dict[str, Any] | None, invoked: bool) -> dict[str, Any] | None:
-    """Which check refused, read off the error message (`Class: text`)."""
-    if err is None:
-        return None
-    if invoked:
-        return {"r": "method"}
-    if err.get("type") == "ProtocolVersionError":
-        return {"r": "version"}
-    msg = err.get("message", "")
-    for rx, tag in _MSG:
-        mm = rx.search(msg)
-        if not mm:
-            continue
-        if tag in ("unexpected", "missing"):
-            return {"r": tag, "names": sorted(ast.literal_eval("[" + mm.group(1) + "]"))}
-        if tag == "fieldCount":
-            return {"r": tag, "want": int(mm.group(1)), "got": int(mm.group(2))}
-        if tag == "fieldName":
-            return {"r": tag, "i": int(mm.group(1))}
-        if tag in ("fieldType", "fieldNullable", "noPythonValue"):
-            return {"r": tag, "name": ast.literal_eval(mm.group(1))}
-        if tag == "nullNotOptional":
-            return {"r": tag, "name": mm.group(1)}
-        return {"r": tag}
-    return {"r": "deser"}
-
-
-def observe_pipe(svc: Service, method: str, req: bytes) -> dict[str, Any]:
-    m = svc.methods.get(method)
-    sg.INVOCATIONS.clear()
-    data = req + (sg.empty_tick_stream() if (m is not None and m["kind"] == "stream") else b"")
-    out, exc = rpcutil.serve_one_bytes(svc.server, data)
-    inv = list(sg.INVOCATIONS)
-    err = None
-    unreadable = None
-    try:
-        for _sch, bs in rpcutil.read_all_streams(out):
-            err = err or rpcutil.error_of(bs)
-    except Exception as e:  # noqa: BLE001
-        unreadable = repr(e)
-    if exc is not None:
-        wire = {"w": "errorStreamThenEscape"} if err else {"w": "escaped"}
-    elif err is not None:
-        wire = {"w": "errorStream"}
-    else:
-        wire = {"w": "result"}
-    return {"inv": inv, "wire": wire, "err": err, "escaped": repr(exc) if exc else None, "unreadable": unreadable, "out_len": len(out)}
-
-
-def observe_http(svc: Service, url_method: str, kind: str, req: bytes) -> dict[str, Any]:
-    sg.INVOCATIONS.clear()
-    path = f"/{url_method}/init" if kind == "stream" else f"/{url_method}"
-    r = svc.client.simulate_post(path, body=req, headers=H_ARROW)
-    inv = list(sg.INVOCATIONS)
-    err = None
-    unreadable = None
-    try:
-        for _sch, bs in rpcutil.read_all_streams(r.content):
-            err = err or rpcutil.error_of(bs)
-    except Exception as e:  # noqa: BLE001
-        unreadable = repr(e)
-    marker = r.headers.get("X-VGI-RPC-Error") == "true"
-    if r.status_code == 200 and not marker and err is None:
-        wire: dict[str, Any] = {"w": "result"}
-    else:
-        wire = {"w": "http", "status": r.status_code, "marker": marker}
-    return {"inv": inv, "wire": wire, "err": err, "escaped": None, "unreadable": unreadable, "out_len": len(r.content)}
-
-
-# ------------------------------------------------------------------------------------------ one case
-
-
-def site_of(transport: str, kind: str) -> str:
-    return {"pipe": {"unary": "pipe_unary", "stream": "pipe_stream"}, "http": {"unary": "http_unary", "stream": "http_init"}}[transport][kind]
-
-
-def _kw_view(kw: dict[str, Any]) -> list[Any]:
-    return [[k, sg.enc_val(v) if not isinstance(v, (sg.Pt, sg.Other)) else sg.enc_val(v)] for k, v in kw.items()]
-
-
-def check_case(ctx: Any, svc: Service, case: dict[str, Any]) -> None:
-    """case = {"methods", "version", "transport", "method" (url / dispatched method), "req_hex", "label"}"""
-    req = bytes.fromhex(case["req_hex"])
-    transport = case["transport"]
-    method = case["method"]
-    m = svc.methods[method]
-    info = svc.server._methods[method]
-    parsed = parse_request(req)
-    site = site_of(transport, m["kind"])
-    name_matches = parsed["method"] == method
-    if transport == "pipe" and not name_matches:
-        return  # on a socket the IPC name selects the method: there is no second name to disagree with
-    gate_pass = True
-    if svc.version is not None:
-        v = parsed["version"]
-        gate_pass = v is not None and v.decode("ascii", "replace").split(".")[:2] == svc.version.split(".")[:2]
-    ok, why = conforms(info, parsed)
-    raises = isinstance(m.get("behave"), dict)
-    vv, expect = values_valid(m, parsed) if ok else (False, {})
-    tags = [f"site:{site}", f"spec:{why}" if not ok else ("spec:conforms" if vv else "spec:conforms-bad-value"),
-            "pert:" + case.get("label", "?").split(":")[0], f"nparams:{len(m['params'])}"]
-    if raises:
-        tags.append("method:raises")
-    if not gate_pass:
-        tags.append("gate:refuse")
-    if not name_matches:
-        tags.append("name:mismatch")
-    obs = observe_pipe(svc, method, req) if transport == "pipe" else observe_http(svc, method, m["kind"], req)
-    invoked = len(obs["inv"]) > 0
-    tags.append("impl:invoked" if invoked else "impl:refused")
-    ctx.case(case, nontrivial=bool(m["params"]) or raises, tags=tags)
-    key_site = site
-    should_run = ok and vv and gate_pass and name_matches
-
-    # ---- O: the property on the implementation -----------------------------------------------------------------
-    if len(obs["inv"]) > 1:
-        ctx.fail(case, f"C06:invoked-twice:{key_site}", f"method ran {len(obs['inv'])} times for one request")
-        return
-    if invoked and not ok:
-        ctx.fail(case, f"C06:invoked-nonconforming:{key_site}:{why}",
-                 f"method {method} ran although the request does not conform ({why}); received {obs['inv'][0][1]!r}")
-        return
-    if invoked and not (gate_pass and name_matches):
-        ctx.fail(case, f"C06:invoked-past-gate:{key_site}", "method ran although the version gate / name check must refuse")
-        return
-    if invoked:
-        got = obs["inv"][0][1]
-        if not vv or list(got) != [p["name"] for p in m["params"]] or any(not sg.same_value(got[k], expect[k]) for k in got):
-            ctx.fail(case, f"C06:invoked-wrong-arguments:{key_site}",
-                     f"method {method} received {got!r}, the request decodes to {expect!r}")
-            return
-    if should_run and not invoked:
-        ctx.fail(case, f"C06:valid-request-rejected:{key_site}", f"a conforming request was refused: {obs['err']} / {obs['wire']}")
-        return
-    if not invoked:
-        # refused before the method ran: HTTP 400 (no marker, Arrow error body) / complete error stream, nothing escapes
-        if transport == "http":
-            if obs["wire"] != {"w": "http", "status": 400, "marker": False} or obs["err"] is None:
-                ctx.fail(case, f"C06:refusal-not-400:{key_site}:{why if not ok else 'bad-value' if not vv else 'gate'}",
-                         f"request refused before the method ran, answered {obs['wire']} err={obs['err'] and obs['err']['type']}")
-                return
-        else:
-            if obs["wire"] != {"w": "errorStream"}:
-                ctx.fail(case, f"C06:refusal-not-error-stream:{key_site}:{why if not ok else 'bad-value' if not vv else 'gate'}",
-                         f"request refused before the method ran, pipe outcome {obs['wire']} escaped={obs['escaped']}")
-                return
-    if invoked and raises:
-        want_type = type(sg.method_exceptions()[m["behave"]["raise"]]()).__name__
-        err = obs["err"] or {}
-        if transport == "http":
-            if obs["wire"] != {"w": "http", "status": 200, "marker": True} or err.get("type") != want_type:
-                ctx.fail(case, f"C06:method-error-misreported:{key_site}:{m['behave']['raise']}",
-                         f"method raised {want_type}; answered {obs['wire']} with error {err.get('type')}")
-                return
-        else:
-            if obs["wire"] != {"w": "errorStream"} or err.get("type") != want_type:
-                ctx.fail(case, f"C06:method-error-misreported:{key_site}:{m['behave']['raise']}",
-                         f"method raised {want_type}; pipe outcome {obs['wire']} with error {err.get('type')} escaped={obs['escaped']}")
-                return
-    if invoked and not raises and obs["wire"] != {"w": "result"}:
-        ctx.fail(case, f"C06:ok-call-errored:{key_site}", f"method returned normally but the answer is {obs['wire']} / {obs['err']}")
-        return
-
-    # ---- K: the model on the same bytes ------------------------------------------------------------------------
-    if ctx.driver is None:
-        return
-    behave = None
-    if raises:
-        behave = exn_json(ctx, sg.method_exceptions()[m["behave"]["raise"]]())
-    r = ctx.driver.call("C06.serve", {"site": site, "decl": decl_json(m, info), "rq": rq_json(ctx, parsed), "nameMatches": name_matches,
-                                      "gatePass": gate_pass, "behave": behave})
-    impl_inv = None
-    if invoked:
-        impl_inv = [[s2j(k), "null" if v is None else "nonnull"] for k, v in obs["inv"][0][1].items()]
-    model_inv = None
-    if r["invoked"] is not None:
-        model_inv = [[k, "null" if t == "null" else "nonnull"] for k, t in r["invoked"]]
-    impl_why = classify(obs["err"], invoked)
-    model_why = r["why"]
-    if model_why is not None:
-        model_why = dict(model_why)
-        if model_why["r"] in ("deserType", "deserKey", "deserConv"):
-            model_why = {"r": "deser"}
-        elif model_why["r"] in ("unexpected", "missing"):
-            model_why["names"] = sorted("".join(chr(c) for c in n) for n in model_why["names"])
-        elif model_why["r"] in ("fieldType", "fieldNullable"):
-            model_why = {"r": model_why["r"], "name": parsed["cols"][model_why["i"]]["name"]}
-        elif "name" in model_why:
-            model_why["name"] = "".join(chr(c) for c in model_why["name"])
-    impl_err = (obs["err"] or {}).get("type")
-    model_err = "".join(chr(c) for c in r["err"]) if r["err"] is not None else None
-    impl_view = {"invoked": impl_inv, "wire": obs["wire"], "err": impl_err, "why": impl_why}
-    model_view = {"invoked": model_inv, "wire": r["wire"], "err": model_err, "why": model_why}
-    if impl_view != model_view:
-        ctx.mismatch(case, model_view, impl_view, f"serve at {site}: model vs implementation")
-
-
 # ------------------------------------------------------------------------------------------ run
 
 
 def make_case(methods: list[dict[str, Any]], version: str | None, transport: str, method: str, req: bytes, label: str) -> dict[str, Any]:
     return {"methods": methods, "version": version, "transport": transport, "method": method, "req_hex": req.hex(), "label": label}
+
+
+def routed_case(base_case: dict[str, Any], pointer: str, pointer_schema: pa.Schema) -> dict[str, Any]:
+    """The same request, sent through the shared-memory side channel behind a pointer batch with `pointer_schema`
+    (`pointer` = "declared": what the method declares; "real": the schema of the batch itself)."""
+    c = dict(base_case)
+    c["transport"] = "pipe"
+    c["shm"] = {"pointer": pointer, "pointer_schema_hex": pointer_schema.serialize().to_pybytes().hex()}
+    c["label"] = base_case["label"]
+    return c
+
+
+def route_variants(ctx: Any, svc: Service, case: dict[str, Any], rng: Any, full: bool) -> None:
+    """Pointer-routed variants of a pipe case: behind the declared schema and behind the batch's own schema."""
+    info = svc.server._methods[case["method"]]
+    real_schema = pa.ipc.open_stream(io.BytesIO(bytes.fromhex(case["req_hex"]))).schema
+    for pointer, sch in (("declared", info.params_schema), ("real", real_schema)):
+        if pointer == "real" and real_schema.equals(info.params_schema):
+            continue
+        if full or rng.random() < (0.5 if pointer == "declared" else 0.15):
+            check_case(ctx, svc, routed_case(case, pointer, sch))
 
 
 def client_request(svc: Service, rng: Any, m: dict[str, Any], version: str | None) -> tuple[bytes, str]:
@@ -935,6 +828,7 @@ def explore_signature(ctx: Any, params: list[dict[str, Any]], rng: Any, *, versi
         req = sg.raw_request(m["name"], base, 1, protocol_version=version)
         for transport, meth in site_pairs:
             check_case(ctx, svc, make_case(methods, version, transport, meth, req, "raw-valid"))
+        route_variants(ctx, svc, make_case(methods, version, "pipe", m["name"], req, "raw-valid"), rng, True)
         # URL / IPC name disagreement, version problems
         for ipc_name in ("other", "nope", m["name"].upper()):
             check_case(ctx, svc, make_case(methods, version, "http", m["name"], sg.raw_request(ipc_name, base, 1, protocol_version=version),
@@ -954,6 +848,7 @@ def explore_signature(ctx: Any, params: list[dict[str, Any]], rng: Any, *, versi
             for j, (transport, meth) in enumerate(site_pairs):
                 if full or rng.random() < 0.55:
                     check_case(ctx, svc, make_case(methods, version, transport, meth, r2, label))
+            route_variants(ctx, svc, make_case(methods, version, "pipe", m["name"], r2, label), rng, full)
         for _ in range(n_pairs):
             (l1, c1, r1) = rng.choice(perts)
             second = perturbations(rng, {**m, "params": _params_for(c1, m)}, c1) if len(c1) == len(m["params"]) else perts
@@ -965,6 +860,8 @@ def explore_signature(ctx: Any, params: list[dict[str, Any]], rng: Any, *, versi
                 continue
             transport, meth = rng.choice(site_pairs)
             check_case(ctx, svc, make_case(methods, version, transport, meth, r3, f"pair:{l1}+{l2}"))
+            if transport == "pipe":
+                route_variants(ctx, svc, make_case(methods, version, "pipe", meth, r3, f"pair:{l1}+{l2}"), rng, full)
 
 
 def _params_for(cols: list[dict[str, Any]], m: dict[str, Any]) -> list[dict[str, Any]]:
@@ -993,6 +890,13 @@ def type_identity_check(ctx: Any) -> None:
 
 
 def run(ctx: Any) -> None:
+    try:
+        _run(ctx)
+    finally:
+        close_segment()
+
+
+def _run(ctx: Any) -> None:
     rng = ctx.rng
     full = ctx.tier == "thorough" or ctx.deep
     type_identity_check(ctx)
@@ -1018,5 +922,8 @@ def replay(ctx: Any, case: dict[str, Any]) -> None:
         type_identity_check(ctx)
         return
     svc = Service(case["methods"], case["version"])
-    check_case(ctx, svc, case)
-    flush_model(ctx)
+    try:
+        check_case(ctx, svc, case)
+        flush_model(ctx)
+    finally:
+        close_segment()
